@@ -36,7 +36,9 @@ CONSTANTS MaxOps,      \* programs have at most MaxOps top-level operators
 \*   lost  -- the stream is in fact no longer sorted by f
 \*   strm  -- the stream reaches this point from the enclosing fork without a blocking
 \*            operator (sort), i.e. the fork hands it over batch by batch
-Key(f, desc, nf) == [f |-> f, desc |-> desc, nf |-> nf, multi |-> FALSE, lost |-> FALSE, strm |-> FALSE]
+\*   inc   -- the stream is produced incrementally by a merge: null and missing keys, which
+\*            tie in every comparator, may interleave although they are different groups
+Key(f, desc, nf) == [f |-> f, desc |-> desc, nf |-> nf, multi |-> FALSE, lost |-> FALSE, strm |-> FALSE, inc |-> FALSE]
 NoKey == Key("", FALSE, FALSE)
 KeyEq(a, b) == a.f = b.f /\ a.desc = b.desc           \* order.SortKeys.Equal
 IsNil(k) == k.f = ""
@@ -179,7 +181,8 @@ PSKOp(op, parents, acc) ==
               THEN [op |-> op, keys |-> <<NoKey>>, taint |-> acc.taint, rules |-> acc.rules]
               ELSE [op |-> [op EXCEPT !.dir = DirOf(parent)], keys |-> <<parent>>,
                     taint |-> acc.taint \cup (IF parent.multi THEN {"fork-sortkey"} ELSE {})
-                                         \cup (IF parent.lost THEN {"stale-sortkey"} ELSE {}),
+                                         \cup (IF parent.lost THEN {"stale-sortkey"} ELSE {})
+                                         \cup (IF parent.inc THEN {"sortdir-null-missing"} ELSE {}),
                     rules |-> acc.rules \cup {"summarize-sort-dir"}]
          [] op.k = "fork" ->
               LET RECURSIVE Legs(_, _)
@@ -193,13 +196,13 @@ PSKOp(op, parents, acc) ==
          [] op.k = "merge" ->
               LET k == Key(op.f, op.desc, op.desc) IN
               [op |-> op,
-               keys |-> <<IF ~IsNil(parent) /\ KeyEq(k, parent) THEN [k EXCEPT !.lost = parent.lost \/ parent.nf # op.desc] ELSE NoKey>>,
+               keys |-> <<IF ~IsNil(parent) /\ KeyEq(k, parent) THEN [k EXCEPT !.lost = parent.lost \/ parent.nf # op.desc, !.inc = TRUE] ELSE NoKey>>,
                taint |-> acc.taint, rules |-> acc.rules]
          [] OTHER ->
               LET out == AnalyzeKeys(op, parent)
                   res == IF IsNil(out) THEN NoKey
                          ELSE IF op.k = "sort" THEN out
-                         ELSE [out EXCEPT !.lost = parent.lost \/ ~ReallyKeeps(op, parent), !.multi = parent.multi, !.nf = parent.nf, !.strm = parent.strm]
+                         ELSE [out EXCEPT !.lost = parent.lost \/ ~ReallyKeeps(op, parent), !.multi = parent.multi, !.nf = parent.nf, !.strm = parent.strm, !.inc = parent.inc]
               IN [op |-> op, keys |-> <<res>>, taint |-> acc.taint, rules |-> acc.rules]
 
 PSK(seq, parents, acc) ==
@@ -227,7 +230,27 @@ SrcKey(sk) == IF sk = "a:asc" THEN [Key("a", FALSE, FALSE) EXCEPT !.strm = TRUE]
               ELSE IF sk = "a:desc" THEN [Key("a", TRUE, TRUE) EXCEPT !.strm = TRUE]     \* a truthful desc key: nulls first (nullsMax)
               ELSE NoKey
 
-\* Optimize: result [src, ops, taint, rules]
+\* ------------------------------------------------------------ insertDemand
+\* inferDemandSeqOutWith (demand.go) over the top-level sequence, from the last
+\* operator to the source; a demand is [all |-> BOOLEAN, fs |-> set of fields].
+\* The result is the demand on the source's output (SeqScan.Fields for a pool).
+DAll == [all |-> TRUE, fs |-> {}]
+DKeys(fs) == [all |-> FALSE, fs |-> fs]
+PredField(p) == IF p = "b<2" THEN "b" ELSE "a"
+DemandIn(op, out) ==
+  CASE op.k = "where" -> IF out.all THEN DAll ELSE DKeys(out.fs \cup {PredField(op.ps[i]) : i \in 1..Len(op.ps)})
+    [] op.k = "summ"  -> DKeys((IF op.key = "" THEN {} ELSE {op.kr}) \cup (IF op.agg = "sum" THEN {"b"} ELSE {}))
+    [] op.k = "yield" -> IF ~out.all /\ out.fs = {} THEN out ELSE DKeys({op.f})
+    [] OTHER -> DAll           \* "conservatively assume that op uses its entire input"
+RECURSIVE DemandFrom(_, _)
+DemandFrom(ops, out) == IF ops = <<>> THEN out ELSE DemandFrom(SubSeq(ops, 1, Len(ops) - 1), DemandIn(ops[Len(ops)], out))
+\* a keyless summarize is `summarize | yield <agg>` in the real plan
+DemandAtSource(ops) == DemandFrom(ops, DAll)
+Project(v, d) == IF d.all \/ v.t # "rec" THEN v ELSE RecV(SelectSeq(v.fs, LAMBDA e : e.f \in d.fs))
+DemandStr(d) == IF d.all \/ d.fs = {} THEN "*"        \* demand.Fields: nil = no projection
+                ELSE IF d.fs = {"a"} THEN "a" ELSE IF d.fs = {"b"} THEN "b" ELSE "a,b"
+
+\* Optimize: result [src, ops, taint, rules, demand]
 Optimize(prog) ==
   LET r1 == WalkNamed("mergeFilters", Acc(prog.ops, {}, {}), TRUE)
       r2 == WalkNamed("removePass", r1, TRUE)
@@ -243,9 +266,15 @@ Optimize(prog) ==
       r7 == Acc(IF lift THEN Tail(p6.seq) ELSE p6.seq,
                 p6.taint \cup (IF lift /\ ErrCapable(p6.seq[1].ps) THEN {"pushdown-error"} ELSE {}),
                 IF lift THEN p6.rules \cup {"filter-into-source"} ELSE p6.rules)
-      \* insertDemand only annotates SeqScan (pool scans); nothing for a reader source.
+      \* insertDemand -> InferDemandSeqOut walks the top-level sequence and panics
+      \* ("Duplicate op value") when the same operator object occurs twice: every
+      \* placeholder written by liftIntoParPaths is the one shared dag.PassOp.
+      npass == Cardinality({i \in 1..Len(r7.seq) : r7.seq[i].k = "pass"})
       r8 == WalkNamed("removePass", r7, TRUE)
-  IN [src |-> src7, ops |-> r8.seq, taint |-> r8.taint, rules |-> r8.rules]
+  IN [src |-> src7, ops |-> r8.seq,
+      taint |-> r8.taint \cup (IF npass >= 2 THEN {"pass-placeholder-panic"} ELSE {}),
+      rules |-> r8.rules,
+      demand |-> DemandAtSource(r7.seq)]
 
 \* ------------------------------------------------------ operator alphabet
 W(p) == [k |-> "where", ps |-> <<p>>]
@@ -447,7 +476,9 @@ vars == <<prog, inp, sk>>
 StartProgs == { <<>>,
                 <<ForkOp(<<SortOp("a", FALSE, FALSE, FALSE)>>, <<SortOp("a", FALSE, FALSE, FALSE)>>), [k |-> "merge", f |-> "a", desc |-> FALSE]>>,
                 <<ForkOp(<<W("b<2"), SortOp("a", FALSE, FALSE, FALSE)>>, <<SortOp("a", FALSE, FALSE, FALSE)>>), [k |-> "merge", f |-> "a", desc |-> FALSE]>>,
-                <<CutOp("b", "b"), RenOp("a", "b")>> }
+                <<CutOp("b", "b"), RenOp("a", "b")>>,
+                <<PutOp("c", "a"), W("1/a>0")>>,
+                <<ForkOp(<<PassOp>>, <<PassOp>>), W("a>0"), ForkOp(<<W("b<2")>>, <<PassOp>>)>> }
 Init == /\ prog \in StartProgs
         /\ inp \in InputsOf
         /\ sk \in SortKeysOf(inp)
@@ -465,18 +496,27 @@ ResJson(x) == [s |-> ValStrs(x.s), ord |-> x.ord, by |-> CmpStr(x.by), det |-> x
 \*   Preserved: an untainted rewrite preserves the meaning of every program/input
 \*              pair whose meaning is defined.
 \*   RefSane:   the program as analyzed never relies on an order it does not have.
+\*   DemandSound: pruning the source's output to the inferred demand does not change
+\*              the result of the rewritten plan.
 \* The case is printed (Emit) before the verdict so that a counterexample is visible.
 Check ==
   LET ref == Sem(Program, inp)
       rw  == Optimize(Program)
       opt == Sem([src |-> rw.src, ops |-> rw.ops], inp)
       eq  == Equiv(ref, opt)
+      \* demand pruning: a scanner that delivers only the demanded fields (after its
+      \* own filter) must not change the result of the rewritten plan
+      d == rw.demand
+      pruned == Sem([src |-> [rw.src EXCEPT !.filter = <<>>], ops |-> rw.ops],
+                    [i \in 1..Len(SelectSeq(inp, LAMBDA v : AllT(rw.src.filter, v))) |->
+                       Project(SelectSeq(inp, LAMBDA v : AllT(rw.src.filter, v))[i], d)])
+      demandOK == (d.all \/ d.fs = {} \/ opt.poison \/ ~opt.det) \/ (SameBag(pruned.s, opt.s) /\ (opt.ord => pruned.s = opt.s))
       case == [ops |-> [i \in 1..Len(prog) |-> OpText(prog[i])], input |-> ValStrs(inp), sk |-> sk,
                ref |-> ResJson(ref), plan |-> PlanCanon(rw.src, rw.ops), opt |-> ResJson(opt),
-               taint |-> rw.taint, rules |-> rw.rules, eq |-> eq]
+               taint |-> rw.taint, rules |-> rw.rules, eq |-> eq, demand |-> DemandStr(d)]
       \* Emit: every program of <= 1 operator, every state in which a rule fired (the plan
       \* changed), and for the rest the states over the curated inputs with an index in EmitPlain.
-      ok == ~ref.poison /\ ((ref.det /\ rw.taint = {}) => eq)        \* RefSane /\ Preserved
+      ok == ~ref.poison /\ ((ref.det /\ rw.taint = {}) => eq) /\ demandOK       \* RefSane /\ Preserved /\ DemandSound
       emit == Emit /\ (Len(prog) <= 1 \/ rw.rules # {} \/ ~ok \/ \E i \in EmitPlain : i <= Len(QuickInputs) /\ inp = QuickInputs[i])
   IN (emit => PrintT(ToJson(case))) /\ ok
 =============================================================================
